@@ -19,6 +19,11 @@ class NotFoldable(Exception):
     pass
 
 
+class SignLost(NotFoldable):
+    """sqrt / fractional power of an expression that depends on the angle: |cos|, |sin| - not polynomial,
+    and not proportional to a matrix built from cos/sin for every angle."""
+
+
 class Angle:
     """A linear form k * theta (+ constant) with complex k, used inside exp/cos/sin arguments."""
 
@@ -119,7 +124,12 @@ class Folder:
             if isinstance(a, Poly) and isinstance(b, Poly):
                 if a.is_const() and b.is_const():
                     return Poly.const(a.value() ** b.value())
-                return a ** b
+                if b.is_const() and not a.is_const() and abs(b.value() - round(b.value().real)) > 1e-12:
+                    raise SignLost(f"`{src(e)[:50]}` is a fractional power of an angle-dependent quantity")
+                try:
+                    return a ** b
+                except (ValueError, ZeroDivisionError) as ex:
+                    raise NotFoldable(f"{src(e)[:50]}: {ex}") from ex
         raise NotFoldable(src(e)[:80])
 
     def _angle_op(self, a, b, op, e):
@@ -191,6 +201,8 @@ class Folder:
             v = self.fold(e.args[0])
             if isinstance(v, Poly) and v.is_const():
                 return Poly.const(cmath.sqrt(v.value()))
+            if isinstance(v, Poly):
+                raise SignLost(f"`{src(e)[:50]}` is the square root of an angle-dependent quantity")
         if last in ("exp", "cos", "sin") and e.args:
             v = self.fold(e.args[0])
             if isinstance(v, Poly) and v.is_const():
